@@ -5,6 +5,7 @@ from ..common import pmap, unesc
 from ..pyparse import py_parse_obj, py_gen_text
 from ..findings import still_fails
 from .. import semgen, corpus, meaning
+from .. import speccases as S
 
 ID = "C08"
 LEAN_MODULES = ["PycModel.Properties.C08"]
@@ -88,6 +89,15 @@ def run(ctx):
         jobs = [(t, i, tmpdir, ctx.quick()) for i, t in enumerate(progs_ + corp)]
         # hand-written programs in which every token matters: always at -O0 and -O1
         jobs += [(t, len(jobs) + i, tmpdir, False) for i, t in enumerate(meaning.PROGRAMS)]
+        # the declaration shapes of the C03 specification (every derivation sequence x context x base
+        # specifier, incl. several declarators sharing `_Atomic(T)`): what gcc accepts is compared
+        spec_decl = []
+        if ctx.model_available:
+            reqs = [("c03", "enum", "0", "0", "10"), ("c03", "enum", "1", "0", "100"),
+                    ("c03", "enum", "2", "0", "150" if ctx.quick() else "1000"),
+                    ("c03", "rand", str(ctx.seed), "80" if ctx.quick() else "3000", "5")]
+            spec_decl = sorted({c[0] for c in S.fetch(reqs)})
+        jobs += [(t, len(jobs) + i, tmpdir, True) for i, t in enumerate(spec_decl)]
         res = pmap_small(check, jobs)
     finally:
         shutil.rmtree(tmpdir, ignore_errors=True)
@@ -106,8 +116,9 @@ def run(ctx):
             ctx.violation("%s for %r" % (why, t[:160]), {"kind": "text", "text": t}, classify)
     ctx.extra["explanation"] = EXPLANATION
     ctx.extra["programs_compared"] = ok
+    ctx.extra["spec_declaration_shapes_offered"] = len(spec_decl)
     ctx.extra["programs_skipped_not_compilable_or_not_parsed"] = skip
-    ctx.rule("%d type-correct programs from the semantic generator (all statement kinds, all integer operators, structs/unions/enums/bit-fields, function pointers, designated initializers, compound literals, qualifiers, storage classes, C11 specifiers) + the compilable programs of the repository corpus + %d hand-written programs in which every token matters to the compiler (qualifiers in every position incl. inside array brackets, conversions, literal suffixes and escapes, initializer bracing and designators, bit-fields and alignment, every operator pair whose grouping matters, enum values, storage classes and function specifiers, fall-through, declarator shapes, K&R definitions, compound literals); gcc -std=c11 -S at -O0 and -O1, original vs regenerated (both generator configurations), .file/.ident normalised" % (n, len(meaning.PROGRAMS)))
+    ctx.rule("%d type-correct programs from the semantic generator (all statement kinds, all integer operators, structs/unions/enums/bit-fields, function pointers, designated initializers, compound literals, qualifiers, storage classes, C11 specifiers) + the compilable programs of the repository corpus + %d hand-written programs in which every token matters to the compiler (qualifiers in every position incl. inside array brackets, conversions, literal suffixes and escapes, initializer bracing and designators, bit-fields and alignment, every operator pair whose grouping matters, enum values, storage classes and function specifiers, fall-through, declarator shapes, K&R definitions, compound literals); + the declaration shapes of the C03 specification (derivation sequences x contexts x base specifiers incl. multi-declarator `_Atomic(T)`), those gcc accepts; gcc -std=c11 -S at -O0 and -O1, original vs regenerated (both generator configurations), .file/.ident normalised" % (n, len(meaning.PROGRAMS)))
     ctx.count(len(jobs), nontrivial_n=ok)
     ctx.sample({"kind": "program", "text": progs_[0][:600]})
 
